@@ -82,12 +82,23 @@ impl U256Set {
     pub fn default() -> (r: U256Set) ensures r.members == Set::<nat>::empty() { unimplemented!() }
     #[verifier::external_body]
     pub fn insert(&mut self, v: U256) -> (r: bool) ensures final(self).members == old(self).members.insert(v@) { unimplemented!() }
-    // .into_iter().collect::<Vec<_>>() then .sort()
+    // .into_iter().collect::<Vec<_>>(): the members, each once, in SOME order (ASSUMED std semantics of HashSet iteration)
     #[verifier::external_body]
-    pub fn into_sorted_vec(self) -> (r: Vec<U256>)
-        ensures strictly_increasing(r@), forall|i: int| 0 <= i < r@.len() ==> self.members.contains((#[trigger] r@[i])@) { unimplemented!() }
+    pub fn into_vec(self) -> (r: Vec<U256>)
+        ensures forall|i: int| 0 <= i < r@.len() ==> self.members.contains((#[trigger] r@[i])@),
+                forall|i: int, j: int| 0 <= i < j < r@.len() ==> (#[trigger] r@[i])@ != (#[trigger] r@[j])@ { unimplemented!() }
 }
 // ===== end =====
+// `v.sort()` on a Vec<U256> (ASSUMED std semantics: a non-decreasing rearrangement of the same elements)
+#[verifier::external_body]
+pub fn vf_sort_u256(v: &mut Vec<U256>)
+    ensures final(v)@.len() == old(v)@.len(),
+            forall|i: int, j: int| 0 <= i < j < final(v)@.len() ==> (#[trigger] final(v)@[i])@ <= (#[trigger] final(v)@[j])@,
+            forall|i: int| 0 <= i < final(v)@.len() ==> exists|k: int| 0 <= k < old(v)@.len() && old(v)@[k]@ == (#[trigger] final(v)@[i])@,
+            // a rearrangement keeps distinct elements distinct
+            (forall|i: int, j: int| 0 <= i < j < old(v)@.len() ==> (#[trigger] old(v)@[i])@ != (#[trigger] old(v)@[j])@)
+                ==> (forall|i: int, j: int| 0 <= i < j < final(v)@.len() ==> (#[trigger] final(v)@[i])@ != (#[trigger] final(v)@[j])@)
+{ unimplemented!() }
 // ===== TRUSTED SHIM (continued): GetLastStateProof builder with ghost fields =====
 pub struct Uint256VecE { pub ghost items: Seq<nat>, pub x: u8 }
 impl Pack<PackedU64> for u64 { #[verifier::external_body] fn pack(&self) -> (r: PackedU64) ensures r@ == *self { unimplemented!() } }
